@@ -160,8 +160,8 @@ def class_transforms(case, ctx):
           f'{tr} {sorted(st_)}')
   # (map_variables(init=True) runs the body an extra time at init, so only
   # remat is promised to reproduce the plain program's random draws)
-  same_values = named and (tr == 'remat' or (tr == 'map_id'
-                                             and not L.uses(child, ('rng',))))
+  same_values = named and (tr == 'remat' or (
+      tr in ('map_id', 'map_id_filter') and not L.uses(child, ('rng',))))
   if same_values:
     require(tree_close({c: vp[c] for c in vp if c not in obs},
                        {c: vt_r[c] for c in vt_r if c not in obs}),
@@ -612,8 +612,9 @@ class AliasRoot(nn.Module):
     for l in leaves:
       x = x + 0.0 * l(x)      # every leaf exists whatever the pattern
     a, b, c = (leaves[i] for i in self.pattern)
-    tr = 'map_id_init' if self.tr == 'map_id' and self.is_initializing() \
-        else ('map_id_apply' if self.tr == 'map_id' else self.tr)
+    tr = self.tr
+    if tr in ('map_id', 'map_id_filter'):
+      tr = tr + ('_init' if self.is_initializing() else '_apply')
     return triple_cls(self.order, tr)(a=a, b=b, c=c, name='triple')(x)
 
 
